@@ -1,6 +1,7 @@
 package refeval
 
 import (
+	"math/big"
 	"math"
 	"reflect"
 	"regexp"
@@ -1034,6 +1035,17 @@ func builtins() []*Builtin {
 				s := 0.0
 				for _, n := range ns {
 					s += n
+				}
+				if math.IsInf(s, 0) {
+					// the total is out of range, the mean need not be: the mean
+					// of the exact values, rounded once
+					t := new(big.Float).SetPrec(4096)
+					for _, n := range ns {
+						t.Add(t, new(big.Float).SetPrec(4096).SetFloat64(n))
+					}
+					t.Quo(t, new(big.Float).SetPrec(4096).SetInt64(int64(len(ns))))
+					m, _ := t.Float64()
+					return finite(m)
 				}
 				return finite(s / float64(len(ns)))
 			})
